@@ -51,6 +51,32 @@ CHECKS = {
         text="~2*10^5 (quick) / 4*10^6 (thorough) node histories over all kinds and lattice/random values; 5 getters x every state; saturation, errno and representation switching of int_inc checked exactly; "
              "any undefined conversion aborts under UBSan and is reported with the command it died in.",
         note="trusted: reference tables (self-tested), gcc UBSan incl. float-cast-overflow; corners the documentation leaves open are listed in the evidence assumptions and not asserted"),
+    "C06": dict(
+        level="exploration", design="DESIGN.md §3 C06",
+        technique="runtime monitoring: (a) small-scope exhaustive enumeration of operation sequences on tiny linkhash tables inside an ASan driver with an in-driver ordered-map oracle; (b) model-checked churn histories at json_object level with colliding keys, both hash functions, 32 hash seeds",
+        text="(a) every add/delete/lookup sequence of length <= 6 (thorough 7, selected configs 8) over 4 keys on lh_table_new(size 1..5) x 4 caller-supplied hashes (~3.8*10^8 checked steps in quick); "
+             "(b) ~2k (quick) / 100k histories of 30-5000 operations; six iteration forms, length, lookups, release sets, delete-current-while-iterating after steps.",
+        note="trusted: the ordered-map models (C, 40 lines; Python dict), hashes for collision construction are read from the library itself; slot-level facts are evidence only"),
+    "C07": dict(
+        level="exploration", design="DESIGN.md §3 C07",
+        technique="runtime monitoring: ASan driver + list-with-gaps reference model compared after every operation (length, every index 0..len+2, return codes, destruction callbacks)",
+        text="~6k (quick) / 300k histories of 20-100 array operations with indices/counts inside, at and beyond the bounds incl. SIZE_MAX-adjacent; sort/bsearch; failed operations must leave ownership with the caller.",
+        note="trusted: Python list model; uid destruction callbacks as the release observation"),
+    "C09": dict(
+        level="exploration", design="DESIGN.md §3 C09",
+        technique="runtime monitoring: equal() matrices over generated tree triples compared with a value-equality model (+ reflexive/symmetric/transitive monitors); deep copies checked for equality, identical serialization under 64 flag sets, pointer-set disjointness and independence under mutation/destruction (ASan)",
+        text="~24k triples + 6k copies (quick) / 1.5M + 200k (thorough).",
+        note="trusted: the value-equality model; ASan for use-after-free through shared nodes"),
+    "C11": dict(
+        level="exploration", design="DESIGN.md §3 C11",
+        technique="runtime monitoring: ASan driver + byte-string model after every set; shim-injected allocation failures; ledger conservation; equality/copy/serialization probes",
+        text="~8k (quick) / 500k histories x 10-40 sets with lengths crossing the inline threshold both ways, injected malloc failures on every 5th set, refused lengths with a 2-byte source.",
+        note="trusted: byte-string model, shim fault schedule (the check verifies whether the fault fired), reference parser for the serialization probe"),
+    "C19": dict(
+        level="exploration", design="DESIGN.md §3 C19",
+        technique="runtime monitoring: ASan driver + byte-array model; sizes chosen by the driver relative to the buffer's CURRENT capacity; crc32 of contents, terminator, bpos<=size<=real block size (shim) after every step",
+        text="16k (quick) / 10^6 histories of 10-60 print-buffer operations incl. must-refuse arguments near INT_MAX.",
+        note="trusted: byte-array model; growth policy not asserted"),
 }
 
 NOT_YET = {}
